@@ -13,6 +13,7 @@
 #include "c20_ret.inc"
 #include "c20_lang.inc"
 #include "c20_addr.inc"
+#include "c20_init.inc"
 
 using namespace c20;
 
@@ -495,6 +496,25 @@ bool c20::run_part6(std::string const& op, Toks& in, Out& impl, Out& ref)
         bool a    = addr::run_amp<EtlLib>(in, impl);
         bool b    = addr::run_amp<StdLib>(copy, ref);
         return a && b;
+    }
+    if (op == "init") {
+        // which constructor builds a user type constructed from forwarded arguments (c20_init.inc)
+        auto site = static_cast<int>(in.num());
+        auto scen = static_cast<int>(in.num());
+        auto a    = in.num();
+        auto b    = in.num();
+        init::run_init<EtlLib>(site, scen, a, b, impl);
+        init::run_init<StdLib>(site, scen, a, b, ref);
+        return true;
+    }
+    if (op == "initlang") {
+        // the language rule behind op init (ModelInit.resolve): the compiler is the reference, reference and spec legs are na
+        auto form = static_cast<int>(in.num());
+        auto scen = static_cast<int>(in.num());
+        auto a    = in.num();
+        auto b    = in.num();
+        init::run_lang(form, scen, a, b, impl);
+        return true;
     }
     return false;
 }
